@@ -1043,14 +1043,6 @@ func (client *client) publishHandler(pub *packets.Publish) *codes.Error {
 		}
 	}
 
-	if pub.Retain {
-		if len(pub.Payload) == 0 {
-			srv.retainedDB.Remove(string(pub.TopicName))
-		} else {
-			srv.retainedDB.AddOrReplace(msg.Copy())
-		}
-	}
-
 	var err error
 	var topicMatched bool
 	if !dup {
@@ -1066,6 +1058,14 @@ func (client *client) publishHandler(pub *packets.Publish) *codes.Error {
 			opts = req.IterationOptions
 		}
 		if msg != nil && err == nil {
+			// update the retained message only for a message the hooks let through, and with the message they return
+			if msg.Retained {
+				if len(msg.Payload) == 0 {
+					srv.retainedDB.Remove(msg.Topic)
+				} else {
+					srv.retainedDB.AddOrReplace(msg.Copy())
+				}
+			}
 			topicMatched = client.deliverMessage(client.opts.ClientID, msg, opts)
 		}
 	}
